@@ -289,6 +289,16 @@ Definition update_silent (id : nat) (v : Z) (s : state) : res unit :=
       end
   end.
 
+(* node.rs NodeHandle::dispose, first step (fix of F17): the node is unsubscribed from its dependencies before its
+   cleanups run, so that a cleanup writing to one of them cannot re-run the node that is being disposed *)
+Definition unsubscribe (id : nat) (s : state) : state :=
+  if fx then
+    match nodes s !! id with
+    | Some this => foldr (fun d acc => upd d (nd_dependents (remove_id id)) acc) (upd id (nd_deps (fun _ => [])) s) (n_deps this)
+    | None => s
+    end
+  else s.
+
 (* ---------------------------------------------------------------------------------- *)
 (* The part that runs user code: one mutual fixpoint on fuel.                          *)
 
@@ -472,7 +482,7 @@ with dispose (f : nat) (id : nat) (s : state) {struct f} : res unit :=
   match f with
   | O => Err OutOfFuel s
   | S f' =>
-      do _, s1 <- dispose_children f' id s;
+      do _, s1 <- dispose_children f' id (unsubscribe id s);
       match nodes s1 !! id with
       | None => Ok tt s1
       | Some this =>
@@ -781,7 +791,7 @@ Proof. reflexivity. Qed.
 
 Lemma dispose_S (f' : nat) (id : nat) (s : state) :
   dispose (S f') id s =
-      do _, s1 <- dispose_children f' id s;
+      do _, s1 <- dispose_children f' id (unsubscribe id s);
       match nodes s1 !! id with
       | None => Ok tt s1
       | Some this =>
